@@ -87,6 +87,20 @@ def oracle_lines(cfg, ops, real):
             return (f"C11:accumulated-dropped:{kind}", f"{kind} optimizer: op #{i} {op} changed the accumulated (clipped, not yet released) gradients from tokens [{a}] to [{b}]",
                     {"ops": ops, "cfg": cfg})
     outs = [EC.parse_line(l)["out"] for l in real[1:]]
+    # the skip signals are a FIFO: the k-th step that reaches the skip test consumes the k-th signal sent (none queued = release).
+    # A signal consumed by another step merges two logical batches under one noise draw and one accountant record (stale
+    # accumulated state leaks into the next release).  Checked up to the first step that raises.
+    fifo = []
+    for i, (op, o) in enumerate(zip(ops, outs)):
+        if op[0] == "sig":
+            fifo.append(bool(op[1]))
+        elif op[0] == "step":
+            if o not in ("released", "skipped"):
+                break
+            want = fifo.pop(0) if fifo else False
+            if (o == "skipped") != want:
+                return (f"C11:skip-signal-order:{kind}", f"{kind} optimizer: step at op #{i} was {o}, but the oldest unconsumed skip signal says {'skip' if want else 'release'} "
+                        f"(signals are consumed first-in first-out, one per step)", {"ops": ops, "cfg": cfg})
     # reuse must raise (standard optimizers)
     if kind == "std":
         last_rel, dirty = None, False
